@@ -54,9 +54,84 @@ Proof.
   destruct a as [|m [|m' r]]; simpl in *; [reflexivity|apply app_nil_r|discriminate].
 Qed.
 
+Lemma get_one_shape {M} (a : attrs M) : get_one a = None -> a = [] \/ a = [first_attr a].
+Proof.
+  unfold get_one. destruct a as [|m [|m' r]]; simpl; auto. discriminate.
+Qed.
+
 Lemma get_one_some {M} (a : attrs M) c : get_one a = Some c -> c = CMultipleAttrs /\ Nat.ltb 1 (length a) = true.
 Proof.
   unfold get_one. destruct (Nat.ltb 1 (length a)); [|discriminate]. intro H. inversion H. auto.
+Qed.
+
+(** * One key once per attribute ([keyed_err], [has_dup]) *)
+Lemma item_key_eqb_sym a b : item_key_eqb a b = item_key_eqb b a.
+Proof. destruct a, b; simpl; try reflexivity. apply String.eqb_sym. Qed.
+Lemma field_key_eqb_sym a b : field_key_eqb a b = field_key_eqb b a.
+Proof. destruct a, b; simpl; try reflexivity. apply String.eqb_sym. Qed.
+
+Lemma seen_err_some {K} (eqb : K -> K -> bool) k seen c :
+  seen_err eqb k seen = Some c -> c = CRepeatedKey /\ existsb (eqb k) seen = true.
+Proof. unfold seen_err. destruct (existsb (eqb k) seen); [|discriminate]. intro H; inversion H; auto. Qed.
+Lemma seen_err_none {K} (eqb : K -> K -> bool) k seen :
+  seen_err eqb k seen = None -> existsb (eqb k) seen = false.
+Proof. unfold seen_err. destruct (existsb (eqb k) seen); [discriminate|auto]. Qed.
+
+Section Keyed.
+  Context {A K : Type} (key : A -> K) (eqb : K -> K -> bool) (pre post : A -> res).
+  Hypothesis eqb_sym : forall a b, eqb a b = eqb b a.
+
+  (** an error of the walk is an error of one entry, or the repetition error -- and then a key
+      occurs twice (or had been seen before the walk started) *)
+  Lemma keyed_err_some : forall l seen c, keyed_err key eqb pre post seen l = Some c ->
+    (exists x, In x l /\ (pre x = Some c \/ post x = Some c)) \/
+    (c = CRepeatedKey /\
+     (has_dup eqb (map key l) = true \/ exists x, In x l /\ existsb (eqb (key x)) seen = true)).
+  Proof.
+    induction l as [|x r IH]; intros seen c H; simpl in H; [discriminate|].
+    apply andthen_some in H. destruct H as [H|[_ H]].
+    { left. exists x. simpl. auto. }
+    apply andthen_some in H. destruct H as [H|[_ H]].
+    { apply seen_err_some in H. destruct H as [-> H]. right. split; [reflexivity|]. right. exists x. simpl. auto. }
+    apply andthen_some in H. destruct H as [H|[_ H]].
+    { left. exists x. simpl. auto. }
+    apply IH in H. destruct H as [[y [I H]]|[-> [H|[y [I H]]]]].
+    - left. exists y. simpl. auto.
+    - right. split; [reflexivity|]. left. simpl. rewrite H. apply orb_true_r.
+    - right. split; [reflexivity|]. simpl in H. apply orb_true_iff in H. destruct H as [H|H].
+      + left. simpl. apply orb_true_iff. left. apply existsb_exists. exists (key y). split.
+        * apply in_map. exact I.
+        * rewrite eqb_sym. exact H.
+      + right. exists y. simpl. auto.
+  Qed.
+
+  Lemma keyed_err_none : forall l seen, keyed_err key eqb pre post seen l = None ->
+    (forall x, In x l -> pre x = None /\ post x = None /\ existsb (eqb (key x)) seen = false) /\
+    has_dup eqb (map key l) = false.
+  Proof.
+    induction l as [|x r IH]; intros seen H; simpl in H.
+    { split; [intros x []|reflexivity]. }
+    apply andthen_none in H. destruct H as [H1 H].
+    apply andthen_none in H. destruct H as [H2 H].
+    apply andthen_none in H. destruct H as [H3 H].
+    apply seen_err_none in H2. apply IH in H. destruct H as [H4 H5].
+    split.
+    - intros y [<-|I]; [auto|]. destruct (H4 y I) as [P1 [P2 P3]]. simpl in P3.
+      apply orb_false_iff in P3. tauto.
+    - simpl. rewrite H5, orb_false_r. apply existsb_false. intros k I.
+      apply in_map_iff in I. destruct I as [y [<- I]]. destruct (H4 y I) as [_ [_ P3]]. simpl in P3.
+      apply orb_false_iff in P3. rewrite eqb_sym. tauto.
+  Qed.
+End Keyed.
+
+(** a node that passed [get_one] has at most one attribute: "twice in one attribute" is "twice in
+    the first attribute" *)
+Lemma one_attr_dup {M K} (key : M -> K) (eqb : K -> K -> bool) (a : attrs M) :
+  get_one a = None ->
+  existsb (fun ms => has_dup eqb (map key ms)) a = has_dup eqb (map key (first_attr a)).
+Proof.
+  intro G. destruct (get_one_shape a G) as [->|E]; [reflexivity|].
+  rewrite E at 1. simpl. apply orb_false_r.
 Qed.
 
 (** * The slots of a field attribute, as folds *)
@@ -83,6 +158,15 @@ Qed.
 
 Definition sif_step (acc : option (bool * option (bool * bool))) (m : field_meta) :=
   match m with FSchema p wf => Some (p, wf) | _ => acc end.
+(** what the fold of [field_meta_apply] leaves in the schema slots: the last [schema(..)] entry *)
+Definition schema_in_force (ms : list field_meta) : option (bool * option (bool * bool)) :=
+  fold_left sif_step ms None.
+Definition override_of (acc : option (bool * option (bool * bool))) : bool :=
+  match acc with
+  | Some (p, wf) => p || match wf with Some _ => true | None => false end
+  | None => false
+  end.
+Definition schema_override (ms : list field_meta) : bool := override_of (schema_in_force ms).
 Definition slots (a : fattr) : bool * bool := (fa_schema_params a, fa_schema_funcs a).
 Definition of_acc (acc : option (bool * option (bool * bool))) (d : bool * bool) : bool * bool :=
   match acc with Some (p, wf) => (p, is_some wf) | None => d end.
@@ -99,11 +183,64 @@ Lemma schema_slots ms :
   fa_schema_params (field_attr_of ms) || fa_schema_funcs (field_attr_of ms) = schema_override ms.
 Proof.
   pose proof (fold_slots ms no_fattr None (false, false) eq_refl) as H.
-  unfold schema_override, schema_in_force. fold sif_step.
+  unfold schema_override, schema_in_force, override_of.
   fold (field_attr_of ms) in H. unfold slots in H.
   pose proof (f_equal fst H) as H1. pose proof (f_equal snd H) as H2. cbn [fst snd] in H1, H2.
   rewrite H1, H2.
   destruct (fold_left sif_step ms None) as [[p wf]|]; reflexivity.
+Qed.
+
+(** when no key is repeated the slot holds the one [schema(..)] entry there is: "the entry in
+    force" and "some entry" are the same thing *)
+Definition is_schema (m : field_meta) : bool := match m with FSchema _ _ => true | _ => false end.
+Lemma no_later_schema ms :
+  existsb (field_key_eqb FKSchema) (map field_key_of ms) = false -> existsb is_schema ms = false.
+Proof.
+  intro H. apply existsb_false. intros m I. rewrite existsb_false in H.
+  specialize (H (field_key_of m) (in_map _ _ _ I)). destruct m; simpl in *; auto.
+Qed.
+Lemma no_schema_no_override ms : existsb is_schema ms = false -> existsb has_schema_override ms = false.
+Proof.
+  intro H. apply existsb_false. intros m I. rewrite existsb_false in H. specialize (H m I).
+  destruct m; simpl in *; auto. discriminate.
+Qed.
+Lemma override_fold : forall ms acc,
+  has_dup field_key_eqb (map field_key_of ms) = false ->
+  (acc <> None -> existsb is_schema ms = false) ->
+  override_of (fold_left sif_step ms acc) = override_of acc || existsb has_schema_override ms.
+Proof.
+  induction ms as [|m ms IH]; intros acc D N; simpl.
+  { rewrite orb_false_r. reflexivity. }
+  simpl in D. apply orb_false_iff in D. destruct D as [D1 D2].
+  destruct (is_schema m) eqn:S.
+  - destruct m; try discriminate. simpl in D1.
+    assert (acc = None).
+    { destruct acc; [|reflexivity]. assert (Some p <> None) as X by discriminate. apply N in X. simpl in X. discriminate. }
+    subst acc. pose proof (no_later_schema ms D1) as NS.
+    rewrite (IH _ D2 (fun _ => NS)). simpl.
+    rewrite (no_schema_no_override ms NS), !orb_false_r. reflexivity.
+  - assert (E : sif_step acc m = acc) by (destruct m; try reflexivity; discriminate).
+    rewrite E. assert (O : has_schema_override m = false) by (destruct m; try reflexivity; discriminate).
+    rewrite O. simpl. apply IH; [exact D2|]. intro X. apply N in X. simpl in X. rewrite S in X. exact X.
+Qed.
+Lemma schema_override_nodup ms :
+  has_dup field_key_eqb (map field_key_of ms) = false ->
+  schema_override ms = existsb has_schema_override ms.
+Proof.
+  intro D. unfold schema_override, schema_in_force.
+  rewrite (override_fold ms None D); [reflexivity|]. intro X. contradiction.
+Qed.
+(** without that hypothesis: the entry in force is one of the entries *)
+Lemma override_fold_some : forall ms acc,
+  override_of (fold_left sif_step ms acc) = true -> override_of acc = true \/ existsb has_schema_override ms = true.
+Proof.
+  induction ms as [|m ms IH]; intros acc H; simpl in *; [auto|].
+  apply IH in H. destruct H as [H|H]; [|right; rewrite H; apply orb_true_r].
+  destruct m; simpl in H; auto. right. simpl. unfold override_of in H. rewrite H. reflexivity.
+Qed.
+Lemma schema_override_some ms : schema_override ms = true -> existsb has_schema_override ms = true.
+Proof.
+  intro H. apply override_fold_some in H. destruct H as [H|H]; [discriminate|exact H].
 Qed.
 
 Definition skip_conflict (ms : list field_meta) : bool :=
@@ -139,11 +276,14 @@ Definition fm_undoc (m : field_meta) : bool :=
   end.
 Definition fr_undoc (f : field) : bool := existsb fm_undoc (field_metas f).
 Definition fr_skip (f : field) : bool :=
-  existsb is_skip (field_metas f) && (existsb is_with (field_metas f) || schema_override (field_metas f)).
+  existsb is_skip (field_metas f) && (existsb is_with (field_metas f) || existsb has_schema_override (field_metas f)).
+Definition fr_repeated_key (f : field) : bool :=
+  existsb (fun a => has_dup field_key_eqb (map field_key_of a)) (f_attrs f).
 
 Definition field_viol (f : field) (r : rule) : bool :=
   match r with
   | RRepeatedAttr => fr_repeated f
+  | RRepeatedKey => fr_repeated_key f
   | RUnknownAttr => fr_unknown f
   | RUndocumented => fr_undoc f
   | RSkipConflict => fr_skip f
@@ -168,33 +308,42 @@ Qed.
 Lemma field_err_some f c : field_attrs_err (f_attrs f) = Some c -> field_viol f (rule_of_class c) = true.
 Proof.
   unfold field_attrs_err. intro H.
-  apply andthen_some in H. destruct H as [H|[G H]].
+  apply andthen_some in H. destruct H as [H|[G0 H]].
   { apply get_one_some in H. destruct H as [-> H]. exact H. }
-  apply get_one_none in G. destruct G as [_ G].
+  pose proof (get_one_none _ G0) as [_ G].
   apply andthen_some in H. destruct H as [H|[_ H]].
-  - apply first_err_some in H. destruct H as [m [I H]].
-    apply field_meta_err_some in H. destruct H as [[-> H]|[R H]]; [|rewrite R]; simpl;
-      [unfold fr_unknown|unfold fr_undoc]; unfold field_metas; rewrite G;
-      apply existsb_exists; exists m; auto.
+  - unfold field_metas_err in H. apply (keyed_err_some _ _ _ _ field_key_eqb_sym) in H.
+    destruct H as [[m [I [H|H]]]|[-> [H|[m [_ H]]]]]; try discriminate.
+    + apply field_meta_err_some in H. destruct H as [[-> H]|[R H]]; [|rewrite R]; simpl;
+        [unfold fr_unknown|unfold fr_undoc]; unfold field_metas; rewrite G;
+        apply existsb_exists; exists m; auto.
+    + simpl. unfold fr_repeated_key. rewrite (one_attr_dup _ _ _ G0). exact H.
   - pose proof (fattr_check_spec (first_attr (f_attrs f))) as S. rewrite H in S.
-    destruct S as [[-> | ->] S]; simpl; unfold fr_skip, field_metas; rewrite G; exact S.
+    destruct S as [E S]. unfold skip_conflict in S. apply andb_prop in S. destruct S as [S1 S2].
+    assert (X : fr_skip f = true).
+    { unfold fr_skip, field_metas. rewrite G, S1. simpl. apply orb_true_iff in S2. destruct S2 as [S2|S2].
+      - rewrite S2. reflexivity.
+      - rewrite (schema_override_some _ S2). apply orb_true_r. }
+    destruct E as [-> | ->]; exact X.
 Qed.
 
 Lemma field_err_none f : field_attrs_err (f_attrs f) = None ->
-  fr_repeated f = false /\ fr_unknown f = false /\ fr_undoc f = false /\ fr_skip f = false.
+  fr_repeated f = false /\ fr_unknown f = false /\ fr_undoc f = false /\ fr_skip f = false /\
+  fr_repeated_key f = false.
 Proof.
   unfold field_attrs_err. intro H.
-  apply andthen_none in H. destruct H as [G H].
+  apply andthen_none in H. destruct H as [G0 H].
   apply andthen_none in H. destruct H as [H1 H2].
-  apply get_one_none in G. destruct G as [G1 G].
-  rewrite first_err_none in H1.
+  pose proof (get_one_none _ G0) as [G1 G].
+  unfold field_metas_err in H1. apply (keyed_err_none _ _ _ _ field_key_eqb_sym) in H1. destruct H1 as [H1 D].
   pose proof (fattr_check_spec (first_attr (f_attrs f))) as S. rewrite H2 in S.
-  unfold fr_repeated, fr_unknown, fr_undoc, fr_skip, field_metas. rewrite G.
+  unfold fr_repeated, fr_unknown, fr_undoc, fr_skip, fr_repeated_key, field_metas. rewrite G.
   repeat split.
   - exact G1.
-  - apply existsb_false. intros m I. apply (field_meta_err_none m (H1 m I)).
-  - apply existsb_false. intros m I. apply (field_meta_err_none m (H1 m I)).
-  - exact S.
+  - apply existsb_false. intros m I. apply (field_meta_err_none m (proj1 (H1 m I))).
+  - apply existsb_false. intros m I. apply (field_meta_err_none m (proj1 (H1 m I))).
+  - unfold skip_conflict in S. rewrite (schema_override_nodup _ D) in S. exact S.
+  - rewrite (one_attr_dup _ _ _ G0). exact D.
 Qed.
 
 (** * The rule list *)
@@ -208,6 +357,7 @@ Definition rule_bool (k : derive_kind) (it : item) (r : rule) : bool :=
   | RSkipConflict => r_skip_conflict it
   | RUnknownAttr => r_unknown it
   | RRepeatedAttr => r_repeated it
+  | RRepeatedKey => r_repeated_key it
   | RUnion => r_union it
   | RUndocumented => r_undocumented k it
   end.
@@ -222,7 +372,8 @@ Qed.
 Lemma no_violations k it : (forall r, rule_bool k it r = false) -> violations k it = [].
 Proof.
   intro H. unfold violations, rules.
-  rewrite (H RRepeatedAttr : r_repeated it = false), (H RUnknownAttr : r_unknown it = false),
+  rewrite (H RRepeatedAttr : r_repeated it = false), (H RRepeatedKey : r_repeated_key it = false),
+    (H RUnknownAttr : r_unknown it = false),
     (H RUndocumented : r_undocumented k it = false), (H RUseDiscrStruct : r_use_discr_struct it = false),
     (H RUseDiscrValue : r_use_discr_value it = false), (H RUnion : r_union it = false),
     (H RTooManyVariants : r_too_many it = false), (H RDiscrNoSetting : r_discr_no_setting it = false),
@@ -279,6 +430,8 @@ Proof.
     apply existsb_exists. exists f. split; [exact I|exact H].
   - unfold r_repeated. apply orb_true_iff. left. apply orb_true_iff. right.
     apply existsb_exists. exists f. split; [exact I|exact H].
+  - unfold r_repeated_key. apply orb_true_iff. left. apply orb_true_iff. right.
+    apply existsb_exists. exists f. split; [exact I|exact H].
   - unfold r_undocumented. apply orb_true_iff. right.
     apply existsb_exists. exists f. split; [exact I|exact H].
 Qed.
@@ -326,6 +479,12 @@ Proof.
   - intro H. apply value_expr_some in H. destruct H as [-> H]. simpl.
     apply missing_undoc; [reflexivity|exact H].
   - intro H. inversion H. reflexivity.
+Qed.
+
+Lemma item_unknown_err_some b m c : item_unknown_err m = Some c -> check_item_meta b m = Some c.
+Proof.
+  destruct m as [key val]. unfold item_unknown_err, check_item_meta. simpl.
+  destruct key; try discriminate. auto.
 Qed.
 
 Lemma get_crate_meta_some k b m c : get_crate_meta m = Some c ->
@@ -549,14 +708,18 @@ Proof.
   apply andthen_some in H. destruct H as [H|[CA H]].
   { unfold check_attributes in H. apply andthen_some in H. destruct H as [H|[G H]].
     - apply get_one_some in H. destruct H as [-> H]. simpl. unfold r_repeated. rewrite H. reflexivity.
-    - apply get_one_none in G. destruct G as [_ G].
+    - pose proof (get_one_none _ G) as [_ G'].
       apply andthen_some in H. destruct H as [H|[_ H]].
       + apply variants_attr_err_some in H. destruct H as [-> [vs [v [B [I N]]]]]. simpl.
         unfold r_unknown. apply orb_true_iff. right. unfold variants_of. rewrite B.
         apply existsb_exists. exists v. split; [exact I|]. destruct (v_attrs v); [contradiction|reflexivity].
-      + apply first_err_some in H. destruct H as [m [I H]].
-        apply (item_meta_viol_rule k it m); [unfold item_metas; rewrite G; exact I|].
-        apply check_item_meta_some. exact H. }
+      + unfold check_item_metas in H. apply (keyed_err_some _ _ _ _ item_key_eqb_sym) in H.
+        destruct H as [[m [I H]]|[-> [H|[m [_ H]]]]]; try discriminate.
+        * apply (item_meta_viol_rule k it m); [unfold item_metas; rewrite G'; exact I|].
+          apply check_item_meta_some. destruct H as [H|H]; [|exact H].
+          apply item_unknown_err_some. exact H.
+        * simpl. unfold r_repeated_key. apply orb_true_iff. left. apply orb_true_iff. left.
+          rewrite (one_attr_dup _ _ _ G). exact H. }
   unfold check_attributes in CA. apply andthen_none in CA. destruct CA as [G CA].
   apply get_one_none in G. destruct G as [G1 G].
   assert (IM : item_metas it = first_attr (it_attrs it)) by exact G. clear G.
@@ -646,7 +809,10 @@ Definition facts (k : derive_kind) (it : item) : Prop :=
      (is_struct (it_body it) = true -> is_use_discr m = false)) /\
   (forall f, In f (all_fields it) -> field_attrs_err (f_attrs f) = None) /\
   (forall v, In v (variants_of it) -> v_attrs v = []) /\
-  r_too_many it = false /\ r_discr_no_setting it = false /\ r_discr_fit it = false.
+  r_too_many it = false /\ r_discr_no_setting it = false /\
+  (discrs_canonical it = true -> implicit_overflow it = false -> type_dependent_discr it = false ->
+   r_discr_fit it = false) /\
+  existsb (fun a => has_dup item_key_eqb (map im_key a)) (it_attrs it) = false.
 
 Lemma r_discr_fit_false it vs : it_body it = BEnum vs -> discrs_canonical it = true ->
   item_metas it = first_attr (it_attrs it) ->
@@ -677,18 +843,21 @@ Proof.
   unfold tag_doc. rewrite R8, RI, Z.eqb_refl. reflexivity.
 Qed.
 
-Lemma check_facts k it :
-  discrs_canonical it = true -> implicit_overflow it = false -> type_dependent_discr it = false ->
-  check_res k it = None -> facts k it.
+(** everything but the discriminant-fit rule needs no hypothesis on the item *)
+Lemma check_facts k it : check_res k it = None -> facts k it.
 Proof.
-  intros C IO TD H. unfold check_res in H.
+  intros H. unfold check_res in H.
   apply andthen_none in H. destruct H as [CA H].
-  unfold check_attributes in CA. apply andthen_none in CA. destruct CA as [G CA].
-  apply get_one_none in G. destruct G as [G1 G].
+  unfold check_attributes in CA. apply andthen_none in CA. destruct CA as [G0 CA].
+  pose proof (get_one_none _ G0) as [G1 G].
   assert (IM : item_metas it = first_attr (it_attrs it)) by exact G. clear G.
   apply andthen_none in CA. destruct CA as [VAE CA].
   pose proof (variants_attr_err_none it VAE) as VAE'. clear VAE. rename VAE' into VAE.
-  rewrite first_err_none in CA.
+  unfold check_item_metas in CA. apply (keyed_err_none _ _ _ _ item_key_eqb_sym) in CA.
+  destruct CA as [CA0 DUP]. rewrite <- (one_attr_dup _ _ _ G0) in DUP.
+  assert (CA : forall m, In m (first_attr (it_attrs it)) -> check_item_meta (it_body it) m = None)
+    by (intros m I; apply (CA0 m I)).
+  clear CA0.
   apply andthen_none in H. destruct H as [GC H]. unfold get_crate in GC. rewrite first_err_none in GC.
   assert (INIT : match it_body it with BUnion _ => False | _ => True end ->
                  (match k with DDe => contains_initialize_with it | _ => None end) = None ->
@@ -711,7 +880,8 @@ Proof.
     split; [exact VAE|].
     split; [unfold r_too_many, variants_of; rewrite B; reflexivity|].
     split; [unfold r_discr_no_setting, variants_of; rewrite B; reflexivity|].
-    unfold r_discr_fit, variants_of. rewrite B. destruct (setting it) as [[|]|]; reflexivity.
+    split; [|exact DUP].
+    intros _ _ _. unfold r_discr_fit, variants_of. rewrite B. destruct (setting it) as [[|]|]; reflexivity.
   - (* enum *)
     apply andthen_none in H. destruct H as [CU H].
     apply andthen_none in H. destruct H as [VE H].
@@ -743,22 +913,27 @@ Proof.
       rewrite setting_fold_noop in NS; [discriminate|].
       intros m I. specialize (E m I). destruct m as [key val]. unfold is_use_discr in E. unfold is_setting.
       simpl in *. destruct key; try discriminate; reflexivity. }
-    apply (r_discr_fit_false it vs B C IM IO TD RT).
+    split; [|exact DUP].
+    intros C IO TD. apply (r_discr_fit_false it vs B C IM IO TD RT).
   - discriminate.
 Qed.
 
-Lemma facts_rules k it : facts k it -> forall r, rule_bool k it r = false.
+Lemma rule_eq_fit (r : rule) : r = RDiscrFit \/ r <> RDiscrFit.
+Proof. destruct r; (left; reflexivity) || (right; discriminate). Qed.
+
+Lemma facts_rules k it : facts k it -> forall r, r <> RDiscrFit -> rule_bool k it r = false.
 Proof.
-  intros [NU [G1 [IMF [FA [VA [TM [NS DF]]]]]]] r.
+  intros [NU [G1 [IMF [FA [VA [TM [NS [_ DUP]]]]]]]] r NR.
   assert (FF : forall f, In f (all_fields it) ->
-                fr_repeated f = false /\ fr_unknown f = false /\ fr_undoc f = false /\ fr_skip f = false).
+                fr_repeated f = false /\ fr_unknown f = false /\ fr_undoc f = false /\ fr_skip f = false /\
+                fr_repeated_key f = false).
   { intros f I. apply field_err_none. apply FA. exact I. }
   destruct r; simpl.
   - exact NS.
   - unfold r_use_discr_struct. destruct (is_struct (it_body it)) eqn:S; [|reflexivity]. simpl.
     apply existsb_false. intros m I. apply (IMF m I). reflexivity.
   - unfold r_use_discr_value. apply existsb_false. intros m I. apply (IMF m I).
-  - exact DF.
+  - contradiction.
   - exact TM.
   - unfold r_skip_conflict. apply existsb_false. intros f I. apply (FF f I).
   - unfold r_unknown. apply orb_false_iff. split; [apply orb_false_iff; split|].
@@ -769,10 +944,42 @@ Proof.
     + exact G1.
     + apply existsb_false. intros f I. apply (FF f I).
     + apply existsb_false. intros v I. rewrite (VA v I). reflexivity.
+  - unfold r_repeated_key. apply orb_false_iff. split; [apply orb_false_iff; split|].
+    + exact DUP.
+    + apply existsb_false. intros f I. apply (FF f I).
+    + apply existsb_false. intros v I. rewrite (VA v I). reflexivity.
   - exact NU.
   - unfold r_undocumented. apply orb_false_iff. split.
     + apply existsb_false. intros m I. apply (IMF m I).
     + apply existsb_false. intros f I. apply (FF f I).
+Qed.
+
+(** an accepted item violates no rule, except possibly the discriminant-fit rule (F11, F12);
+    no hypothesis on the item *)
+Lemma violations_in k it r : In r (violations k it) -> rule_bool k it r = true.
+Proof.
+  intro I. unfold violations in I. apply in_map_iff in I. destruct I as [[r' b] [E I]].
+  apply filter_In in I. destruct I as [I B]. simpl in E, B. subst r' b.
+  unfold rules in I. simpl in I.
+  repeat (destruct I as [I|I]; [injection I as <- I; exact I|]). destruct I.
+Qed.
+
+Theorem accept_only_fit : forall k it r,
+  check k it = accept -> In r (violations k it) -> r = RDiscrFit.
+Proof.
+  intros k it r H I. unfold check in H. destruct (check_res k it) eqn:E; [discriminate|].
+  apply violations_in in I.
+  destruct (rule_eq_fit r) as [->|NR]; [reflexivity|].
+  rewrite (facts_rules k it (check_facts k it E) r NR) in I. discriminate.
+Qed.
+
+(** a key written twice in one attribute is refused by all three derives, whatever else the item holds *)
+Theorem repeated_key_rejected : forall k it,
+  r_repeated_key it = true -> exists c, check k it = reject c.
+Proof.
+  intros k it R. unfold check. destruct (check_res k it) as [c|] eqn:E; [exists c; reflexivity|].
+  pose proof (facts_rules k it (check_facts k it E) RRepeatedKey ltac:(discriminate)) as F.
+  simpl in F. rewrite F in R. discriminate.
 Qed.
 
 Theorem reject_iff_violates : forall k it,
@@ -785,7 +992,10 @@ Proof.
     destruct (violations k it); [destruct I|discriminate].
   - intro V. unfold check. destruct (check_res k it) as [c|] eqn:E; [exists c; reflexivity|].
     exfalso. apply V. unfold violates.
-    rewrite (no_violations k it (facts_rules k it (check_facts k it C IO TD E))). reflexivity.
+    pose proof (check_facts k it E) as F.
+    assert (DF : r_discr_fit it = false) by (apply F; assumption).
+    rewrite (no_violations k it); [reflexivity|].
+    intro r. destruct (rule_eq_fit r) as [->|NR]; [exact DF|]. apply (facts_rules k it F r NR).
 Qed.
 
 (** * The full-strength statement fails on three classes *)
@@ -840,6 +1050,17 @@ Definition one_field (a : attrs field_meta) : item := mki "S" [] (BStruct (FName
 Definition one_variant (a : attrs item_meta) (e : expr) : item := mki "E" a (BEnum [mkv "A" (Some e) FUnit]).
 
 Definition X_multiple : item := unit_struct [[im IKCrate (MVStr "b" true)]; [im IKInit (MVPath "f")]].
+(** [#[borsh(crate = "b", crate = "b")] struct S;] *)
+Definition X_repeated_item : item := unit_struct [[im IKCrate (MVStr "b" true); im IKCrate (MVStr "b" true)]].
+(** [#[borsh(use_discriminant = true, use_discriminant = false)] enum E { A = 3 }] *)
+Definition X_repeated_ud : item :=
+  one_variant [[im IKUseDiscriminant MVTrue; im IKUseDiscriminant MVFalse]] (L 3).
+(** [struct S { #[borsh(skip, skip)] a: u8 }], [.. #[borsh(serialize_with = "f", bound(..), serialize_with = "g")] ..] *)
+Definition X_repeated_skip : item := one_field [[FSkip; FSkip]].
+Definition X_repeated_with : item :=
+  one_field [[FSerializeWith "f" U8t; FBound true false; FSerializeWith "g" U8t]].
+(** [#[borsh(skip, schema(params = ".."), schema(params = ".."))]: the repetition is reported before the skip conflict *)
+Definition X_repeated_schema : item := one_field [[FSkip; FSchema true None; FSchema true None]].
 Definition X_unknown_item : item := unit_struct [[im (IKOther "foo") MVNone]].
 Definition X_ud_struct : item := unit_struct (ud true).
 Definition X_ud_value : item := one_variant [[im IKUseDiscriminant MVOther]] (L 1).
